@@ -2,7 +2,7 @@
 # sanity tool (not a registered check): assemble every bundled example with the pinned baseline and with the
 # current tree; report differences in exit status / image. Used to review `fix:` commits for regressions.
 set -u
-BASE=${1:-0035ecd}
+BASE=${1:-0035ecd}; CUR=${2:-/repo}   # CUR: the tree to compare (default /repo)
 W=$(mktemp -d /tmp/exreg.XXXX)
 git -C /repo worktree add -q --detach "$W/base" "$BASE" || exit 3
 run() { # tree out asm cfg
@@ -11,7 +11,7 @@ run() { # tree out asm cfg
 n=0; d=0
 while read -r asm cfg; do
   n=$((n+1)); b=$(basename "$asm")
-  run "$W/base" "$W/$b.base.bin" "$asm" "$cfg"; run /repo "$W/$b.cur.bin" "$asm" "$cfg"
+  run "$W/base" "$W/$b.base.bin" "$asm" "$cfg"; run "$CUR" "$W/$b.cur.bin" "$asm" "$cfg"
   if ! cmp -s "$W/$b.base.bin.rc" "$W/$b.cur.bin.rc" || ! cmp -s "$W/$b.base.bin" "$W/$b.cur.bin" 2>/dev/null; then
     d=$((d+1)); echo "DIFF $asm: rc $(cat $W/$b.base.bin.rc) -> $(cat $W/$b.cur.bin.rc); sizes $(stat -c%s $W/$b.base.bin 2>/dev/null) -> $(stat -c%s $W/$b.cur.bin 2>/dev/null)"; tail -2 "$W/$b.cur.bin.log"
   fi
